@@ -308,8 +308,12 @@ func (w *workdir) put(im *Image) error {
 	for i := range im.Files {
 		f := &im.Files[i]
 		h, ok := w.have[f.Name]
-		if ok && onDisk[f.Name] && !touched[f.Name] && h.data == dataPtr(f.Data) && h.n == len(f.Data) && h.size == f.Size {
+		if ok && onDisk[f.Name] && !touched[f.Name] && isWal(f.Name) && h.data == dataPtr(f.Data) && h.n == len(f.Data) && h.size == f.Size {
 			continue
+		}
+		if !isWal(f.Name) {
+			// a fresh inode: a lock left on the old one (reader that panicked) must not block the next reopen
+			os.Remove(filepath.Join(w.dir, f.Name))
 		}
 		if err := writeSparse(filepath.Join(w.dir, f.Name), f.Data, f.Size); err != nil {
 			return err
